@@ -48,7 +48,19 @@ impl Parse for Input {
 
         // BUG (In theory): missing and "auto" traits
         if input.peek(syn::token::Trait) {
-            let item_trait: syn::ItemTrait = input.parse()?;
+            let mut item_trait: syn::ItemTrait = input.parse()?;
+
+            // Inner attributes (`#![..]`, `//! ..` at the top of the body) are attributes of the trait
+            // like the outer ones. The trait is put together anew, they are written as outer ones then.
+            let mut attrs = attrs;
+            attrs.extend(
+                std::mem::take(&mut item_trait.attrs)
+                    .into_iter()
+                    .map(|mut attr| {
+                        attr.style = syn::AttrStyle::Outer;
+                        attr
+                    }),
+            );
 
             Ok(Input::Trait(syn::ItemTrait {
                 attrs,
